@@ -120,19 +120,19 @@ RULE = ("grammars: every well-formed left-recursion-free grammar of the exhausti
 
 
 def c01(prop, tier, replay):
-    return ll_check(prop, tier, replay, True, 2, 8 if tier == "quick" else 2, RULE, "verdict = membership in Lang (GEN) and derivation certificate (TV)")
+    return ll_check(prop, tier, replay, True, 2, 8 if tier == "quick" else 6, RULE, "verdict = membership in Lang (GEN) and derivation certificate (TV)")
 
 
 def c02(prop, tier, replay):
-    return ll_check(prop, tier, replay, False, 4, 4 if tier == "quick" else 1, RULE, "TV only: tree = derivation, actions in post-order with the right children")
+    return ll_check(prop, tier, replay, False, 4, 4 if tier == "quick" else 12, RULE, "TV only: tree = derivation, actions in post-order with the right children")
 
 
 def c20(prop, tier, replay):
-    return ll_check(prop, tier, replay, False, 3, 5 if tier == "quick" else 1, RULE, "TV only: option variants (trim, recovery off, depth limits) compared with the reference run")
+    return ll_check(prop, tier, replay, False, 3, 5 if tier == "quick" else 12, RULE, "TV only: option variants (trim, recovery off, depth limits) compared with the reference run")
 
 
 def c08(prop, tier, replay):
-    return ll_check(prop, tier, replay, False, 1, 2 if tier == "quick" else 1, RULE + "; C08 adds: for every non-terminal with k>=1 "
+    return ll_check(prop, tier, replay, False, 1, 2 if tier == "quick" else 4, RULE + "; C08 adds: for every non-terminal with k>=1 "
                     "the real LookaheadDFA::eval is called on a real TokenStream for EVERY window of up to k+1 tokens over the terminals "
                     "and a foreign token (end of input after it) and the `eval` event is checked against LaSet of parol's transformed "
                     "grammar: result p only if some lookahead string of p is a prefix of the window, error iff none is",
@@ -150,12 +150,12 @@ RULE_LR = ("grammars: every well-formed grammar of the exhaustive universe (left
 
 
 def c03(prop, tier, replay):
-    return ll_check(prop, tier, replay, True, 2, 6 if tier == "quick" else 2, RULE_LR,
+    return ll_check(prop, tier, replay, True, 2, 6 if tier == "quick" else 12, RULE_LR,
                     "clean tables: verdict = membership (GEN), reductions = reverse rightmost derivation, tree rooted at start covering all tokens (TV)", lr=True)
 
 
 def c04(prop, tier, replay):
-    return ll_check(prop, tier, replay, True, 1, 12 if tier == "quick" else 4, RULE_LR,
+    return ll_check(prop, tier, replay, True, 1, 12 if tier == "quick" else 24, RULE_LR,
                     "not LALR(1) => rejected or conflict reported; resolved tables accept only sentences", lr=True)
 
 
